@@ -18,7 +18,8 @@ LEVEL_TEXT = ('Exploration: documents rendered from an abstract model into the p
               'emitters under generated options are read by both back-ends; a differential monitor compares event streams '
               '(against each other and against the events known by construction), composed node graphs, and the objects built '
               'by the Base/Safe/Full/Unsafe loader pairs (ref.bisim signatures, documents delivered before an error, exception '
-              'class); the four malformed classes named by the property are planted at model level and must give the same, '
+              'class); documents exactly on the simple-key length limit (every key spelling, 1019-1029 and 126-129 characters) and short-read '
+              'stream deliveries are included; the four malformed classes named by the property are planted at model level and must give the same, '
               'expected, error class. Thorough repeats the C side under the ASan+UBSan glue.')
 LEVEL_NOTE = ('Held on the documents generated. The portable subset is the one listed in DESIGN.md (C06); a divergence inside it '
               'is reported, never waved through.')
